@@ -4,6 +4,7 @@ import (
 	"bytes"
 	"encoding/json"
 	"fmt"
+	"os"
 	"strings"
 
 	mxj "github.com/clbanning/mxj/v2"
@@ -98,6 +99,28 @@ func replayJson(line []byte, a *Acc) {
 				one(fmt.Sprintf("json:html-chars:%s:safe=%v", name, c.Safe), fmt.Sprintf("%s = %q", name, out))
 			}
 		}
+		// the file forms REPLACE an existing (longer) file
+		if fdir := jsonTmpDir(); fdir != "" {
+			tf, _ := os.CreateTemp(fdir, "j*.json") // (the family runs on several workers: one file per use)
+			fn := tf.Name()
+			tf.Close()
+			long := mxj.Maps{m, m, m}
+			e1 := long.JsonFile(fn, c.Safe)
+			e2 := mxj.Maps{m}.JsonFile(fn, c.Safe)
+			back, e3 := mxj.NewMapsFromJsonFile(fn)
+			if e1 != nil || e2 != nil || e3 != nil || len(back) != 1 || tagged.CanonGo(back[0]) != orig {
+				got, _ := os.ReadFile(fn)
+				one("json:file-rewrite", fmt.Sprintf("three Maps then one written to the same file: it holds %q, read back %d Maps (%v %v %v)", got, len(back), e1, e2, e3))
+			}
+			e1 = long.JsonFileIndent(fn, "", "  ", c.Safe)
+			e2 = mxj.Maps{m}.JsonFileIndent(fn, "", " ", c.Safe)
+			back, e3 = mxj.NewMapsFromJsonFile(fn)
+			if e1 != nil || e2 != nil || e3 != nil || len(back) != 1 || tagged.CanonGo(back[0]) != orig {
+				got, _ := os.ReadFile(fn)
+				one("json:file-rewrite-indent", fmt.Sprintf("three Maps then one written (indented) to the same file: it holds %q, read back %d Maps (%v %v %v)", got, len(back), e1, e2, e3))
+			}
+			os.Remove(fn)
+		}
 		// writer forms and Copy
 		var w1, w2 bytes.Buffer
 		e1 := m.JsonWriter(&w1, c.Safe)
@@ -136,7 +159,9 @@ func replayJsonIn(line []byte, a *Acc) {
 	defer func() { mxj.JsonUseNumber = false }()
 	orig := l
 	l.Text = strings.NewReplacer("%", "\f", "`", "\u00a0").Replace(l.Text) // placeholders of the specification's alphabet
-	one := func(sig, detail string) { a.Mis(sig, fmt.Sprintf("input %q (first value: %s): %s", l.Text, l.Kind, detail), orig) }
+	one := func(sig, detail string) {
+		a.Mis(sig, fmt.Sprintf("input %q (first value: %s): %s", l.Text, l.Kind, detail), orig)
+	}
 	// independent oracle: what encoding/json makes of the first value
 	var first interface{}
 	oerr := json.NewDecoder(strings.NewReader(l.Text)).Decode(&first)
@@ -176,6 +201,21 @@ func replayJsonIn(line []byte, a *Acc) {
 		if err != nil {
 			continue
 		}
+		// the returned Map belongs to the caller: filling it must not show in the result of the next call on the same input
+		if m != nil {
+			m["zz-added-by-caller"] = map[string]interface{}{"k": "v"}
+			var again mxj.Map
+			var err2 error
+			if p := guard(func() { again, err2 = mxj.NewMapJson([]byte(l.Text)) }); p != "" || err2 != nil {
+				one("jsonin:second-call", fmt.Sprintf("second NewMapJson on the same input: %v %s", err2, p))
+				continue
+			}
+			if _, leaked := again["zz-added-by-caller"]; leaked {
+				one("jsonin:result-shared:"+l.Kind, fmt.Sprintf("a member added to the Map returned by one call shows in the result of the next call: %s", tagged.CanonGo(again)))
+				continue
+			}
+			delete(m, "zz-added-by-caller")
+		}
 		var want interface{}
 		d := json.NewDecoder(strings.NewReader(l.Text))
 		if useNumber {
@@ -205,6 +245,20 @@ func replayJsonIn(line []byte, a *Acc) {
 	if l.Kind == "arr" && strings.HasPrefix(l.Text, " ") {
 		a.Sample(l)
 	}
+}
+
+var jsonTmp string
+
+// jsonTmpDir: one scratch directory per process for the file forms (removed by the caller of the harness with its scratch area)
+func jsonTmpDir() string {
+	if jsonTmp == "" {
+		d, err := os.MkdirTemp("", "mxjjson")
+		if err == nil {
+			jsonTmp = d
+			atExit = append(atExit, func() { os.RemoveAll(d) })
+		}
+	}
+	return jsonTmp
 }
 
 // sameJSONBytes: equal after json.Compact (escape sequences are kept by Compact, so safe and default encodings differ)
